@@ -105,6 +105,11 @@ def random_script(rng, n, wrap_octets=False):
             steps.append(ev("report", t=now))
             streams[st.s] = Stream(rng, st.s, rng.choice(rates))
             steps.append(ev("bind", s=st.s, rate=streams[st.s].rate))
+        elif r < 0.98:
+            # the SSRC is bound again while it is still bound (renegotiation: new clock rate): the new binding starts fresh
+            steps.append(ev("report", t=now))
+            streams[st.s] = Stream(rng, st.s, rng.choice(rates))
+            steps.append(ev("bind", s=st.s, rate=streams[st.s].rate))
         else:
             now += rng.choice([100, 999, 60000])
             steps.append(ev("report", t=now))
